@@ -136,6 +136,7 @@ Definition lstep5 (p : params) (c : config5) (x : lent) : option config5 :=
   | LRet r x, FK [MRet r' x'] :: stk' =>
       if oz_eqb r r' && (x =? x') then Some (s, stk') else None
   | LProc, FK (MProcs :: ms) :: stk' => let '(s', ms') := srun p s ms in Some (s', FK ms' :: stk')
+  | LQ q, FCb _ :: stk' => if qcheck5 s q then Some (s, stk) else None
   | _, _ => None
   end.
 
